@@ -198,22 +198,34 @@ func Association[K comparable, V any](arguments ...any) col.AssociationLike[K, V
 	var value V
 
 	// Process the actual arguments.
+	var hasKey bool
 	for _, argument := range arguments {
-		switch actual := argument.(type) {
-		case K:
-			key = actual
-		case V:
-			value = actual
+		var asKey, isKey = argument.(K)
+		var asValue, isValue = argument.(V)
+		switch {
+		case isKey && isValue:
+			// The key and value types overlap so the order of the arguments decides.
+			if !hasKey {
+				key = asKey
+				hasKey = true
+			} else {
+				value = asValue
+			}
+		case isKey:
+			key = asKey
+			hasKey = true
+		case isValue:
+			value = asValue
 		default:
 			var notationType = ref.TypeOf((*col.NotationLike)(nil)).Elem()
 			var reflectedType = ref.TypeOf(argument)
 			switch {
-			case reflectedType.Implements(notationType):
+			case reflectedType != nil && reflectedType.Implements(notationType):
 				notation = argument.(col.NotationLike)
 			default:
 				var message = fmt.Sprintf(
 					"Unknown argument type passed into the association constructor: %T\n",
-					actual,
+					argument,
 				)
 				panic(message)
 			}
